@@ -436,7 +436,8 @@ func (e *Engine) scriptFor(o *Oblig, axioms []*Term) (string, bool) {
 		gm = append(gm, in.T)
 	}
 	ax := append(append([]*Term{}, axioms...), strLitAxiomsFor(o.PC, o.Goal)...)
-	goal, pc, extra := prepareQuery(o.PC, o.Goal, o.Hints)
+	debugInst = os.Getenv("GOVC_DEBUG_INST") != "" && strings.Contains(o.Name, os.Getenv("GOVC_DEBUG_INST"))
+	goal, pc, extra := prepareQuery(o.PC, o.Goal, o.Hints, o.RefHints)
 	return Script(logicOpts, strPrelude, ax, []*Term{pc, extra}, Not(goal), gm)
 }
 
